@@ -6,7 +6,7 @@ use crate::{DeserializeEnv, RuleCore};
 
 use ast_grep_core::meta_var::MetaVarEnv;
 use ast_grep_core::meta_var::MetaVariable;
-use ast_grep_core::{Doc, Language};
+use ast_grep_core::{Doc, Language, Node};
 
 use std::collections::HashMap;
 use thiserror::Error;
@@ -53,13 +53,24 @@ impl Transform {
     rewriters: &HashMap<String, RuleCore<D::Lang>>,
     enclosing_env: &MetaVarEnv<'c, D>,
   ) {
+    self.apply_transform_in(env, rewriters, enclosing_env, None)
+  }
+
+  /// `applying`: the rewriter applications this transform is computed in, if any.
+  pub(crate) fn apply_transform_in<'c, D: Doc>(
+    &self,
+    env: &mut MetaVarEnv<'c, D>,
+    rewriters: &HashMap<String, RuleCore<D::Lang>>,
+    enclosing_env: &MetaVarEnv<'c, D>,
+    applying: Option<&Applying>,
+  ) {
     let mut ctx = Ctx {
       env,
       rewriters,
       enclosing_env,
     };
     for (key, tr) in &self.transforms {
-      tr.insert(key, &mut ctx);
+      tr.insert(key, &mut ctx, applying);
     }
   }
 
@@ -69,6 +80,44 @@ impl Transform {
 
   pub(crate) fn values(&self) -> impl Iterator<Item = &Trans<MetaVariable>> {
     self.transforms.iter().map(|t| &t.1)
+  }
+}
+
+/// A rewriter being applied to a node, linked to the applications it is nested in.
+/// The rewriters used by a rewriter only rewrite inside the node it is applied to,
+/// and never apply a rewriter to a node it is already being applied to.
+/// Otherwise recursive rewriters do not end.
+pub(crate) struct Applying<'a> {
+  rewriter: usize,
+  node_id: usize,
+  outer: Option<&'a Applying<'a>>,
+}
+
+impl<'a> Applying<'a> {
+  fn new<D: Doc>(
+    rewriter: &RuleCore<D::Lang>,
+    node: &Node<D>,
+    outer: Option<&'a Applying<'a>>,
+  ) -> Self {
+    Self {
+      rewriter: rewriter as *const RuleCore<D::Lang> as usize,
+      node_id: node.node_id(),
+      outer,
+    }
+  }
+  /// whether `rewriter` can be applied to `node` inside this application
+  fn allows<D: Doc>(&self, rewriter: &RuleCore<D::Lang>, node: &Node<D>) -> bool {
+    let inside =
+      node.node_id() == self.node_id || node.ancestors().any(|n| n.node_id() == self.node_id);
+    inside
+      && !self.is_applying(
+        rewriter as *const RuleCore<D::Lang> as usize,
+        node.node_id(),
+      )
+  }
+  fn is_applying(&self, rewriter: usize, node_id: usize) -> bool {
+    let same = self.rewriter == rewriter && self.node_id == node_id;
+    same || self.outer.is_some_and(|o| o.is_applying(rewriter, node_id))
   }
 }
 
